@@ -7,9 +7,11 @@ package main
 //@ import "github.com/Cloud-Foundations/keymaster/keymasterd/admincache"
 //@ import "github.com/Cloud-Foundations/keymaster/lib/pwauth/okta"
 //@ import "github.com/tstranex/u2f"
+//@ import "github.com/go-jose/go-jose/v4"
+//@ import "github.com/go-jose/go-jose/v4/jwt"
 //@ import "github.com/duo-labs/webauthn/webauthn"
 //@ import "github.com/duo-labs/webauthn/protocol"
-//@ use strings nethttp fmt oauth2 neturl time ssh crypto errors x509 keymasterd_jose pwauth cfssl math keymasterd_rate
+//@ use strings nethttp fmt oauth2 neturl time ssh crypto errors x509 keymasterd_jose pwauth cfssl math keymasterd_rate logging
 
 // ---- C17: post-login redirects stay on the keymaster origin ------------------------------------
 //@ pure func noControlBytes(s string) bool = (forallIdx j int :: 0 <= j && j < len(s) ==> s[j] >= 0x20 && s[j] != 0x7f)
@@ -205,9 +207,15 @@ package main
 //@ func (*RuntimeState).getJoseKeymastedVerifierList
 //@   ensures ret1 == nil ==> (forall i int :: 0 <= i && i < len(ret0) ==> asymmetricAlg(ret0[i]))           #C04.verifier-list @C04
 //@   loop 1 (algorithmSet map[jose.SignatureAlgorithm]struct{}) invariant (forall k jose.SignatureAlgorithm :: hasKey(algorithmSet, k) ==> asymmetricAlg(k))  #C04.verifier-set @C04
-// JWTClaims tries every published key: its body is used at each call site (the success return sits inside the loop)
+// JWTClaims tries every published key and succeeds only if one of them verifies the token
 //@ func (*RuntimeState).JWTClaims
-//@   inline always
+//@   reveal verifiedByKeymaster
+//@   ensures err == nil ==> verifiedByKeymaster(state, rawOf(t))                                          #C04.claims-verified @C04
+//@   ensures err == nil && len(dest) >= 1 && isType[*authInfoJWT](dest[0]) ==> same(*asType[*authInfoJWT](dest[0]), claimsAuthJWT(rawOf(t)))           #C04.claims-payload @C04
+//@   ensures err == nil && len(dest) >= 1 && isType[*storageStringDataJWT](dest[0]) ==> same(*asType[*storageStringDataJWT](dest[0]), claimsStorageJWT(rawOf(t)))  #C04.claims-payload-storage @C04
+//@   ensures err == nil && len(dest) >= 1 && isType[*keymasterdCodeToken](dest[0]) ==> same(*asType[*keymasterdCodeToken](dest[0]), claimsCodeToken(rawOf(t)))  #C04.claims-payload-code @C04
+//@   ensures err == nil && len(dest) >= 1 && isType[*bearerAccessToken](dest[0]) ==> same(*asType[*bearerAccessToken](dest[0]), claimsBearer(rawOf(t)))  #C04.claims-payload-bearer @C04
+//@   modifies pointees(dest)
 //@ func (*RuntimeState).getAuthInfoFromJWT
 //@   reveal verifiedByKeymaster
 //@   ensures err == nil ==> verifiedByKeymaster(state, serializedToken)                                    #C04.auth-verified @C04
@@ -388,3 +396,46 @@ package main
 //@   atcall RuntimeState).SaveUserProfile overrides C08.save-self-or-admin-u2f (s2 *RuntimeState, username2 string, profile2 *userProfile) :: ghostPasswordOK && username2 == ghostPasswordUser  #C08.self-service-own-profile @C08
 //@ func (*RuntimeState).userHasU2FTokens
 //@   requires (ghostAuthed && (username == ghostAuthUser || ghostIsAdmin)) || (ghostPasswordOK && username == ghostPasswordUser)  #C08.token-list-self-or-admin @C08,C06
+
+// ---- C12: OpenID tokens go only to the right client and name the right user ------------------------------------
+// per-request ghost context of the token / userinfo endpoints (all start empty: the handlers are route entries)
+//@ ghost var ghostTokRaw string
+//@ ghost var ghostClientID string
+//@ ghost var ghostClient *OpenIDConnectClientConfig
+//@ ghost var ghostSecretOK bool
+//@ ghost var ghostCanPKCE bool
+//@ ghost var ghostPkceOK bool
+//@ func (*RuntimeState).idpOpenIDCGetClientConfig
+//@   ensures ret1 == nil ==> ret0 != nil && ret0.ClientID == client_id                                    #C12.client-by-id @C12
+//@   ensures fresh(ret0)
+//@ func (*OpenIDConnectClientConfig).ClientCanDoPKCEAuth
+//@   ensures ret0 ==> client.ClientSecret == ""                                                         #C12.pkce-only-secretless @C12
+//@ func (*OpenIDConnectClientConfig).ValidClientSecret
+//@   returns clientSecret == client.ClientSecret                                                        #C12.secret-compare @C12
+// the authorization code the request presented, as verified and decoded
+//@ pure func codeOK(state *RuntimeState, r *http.Request) bool = verifiedByKeymaster(state, ghostTokRaw) && claimsCodeToken(ghostTokRaw).Type == "token_endpoint" && claimsCodeToken(ghostTokRaw).Subject == ghostClientID && claimsCodeToken(ghostTokRaw).Expiration >= nowNanos()/1000000000 && claimsCodeToken(ghostTokRaw).RedirectURI == formGet(r.Form, "redirect_uri") && (ghostSecretOK || ghostPkceOK)
+//@ func (*RuntimeState).idpOpenIDCTokenHandler
+//@   handler idpOpenIDCTokenPath
+//@   atcall jwt.ParseSigned sets ghostTokRaw string (s string, algs []jose.SignatureAlgorithm, tok *jwt.JSONWebToken, err error) :: s if err == nil
+//@   atcall RuntimeState).idpOpenIDCGetClientConfig sets ghostClientID string (s2 *RuntimeState, id string, c *OpenIDConnectClientConfig, err error) :: id if err == nil
+//@   atcall RuntimeState).idpOpenIDCGetClientConfig sets ghostClient *OpenIDConnectClientConfig (s2 *RuntimeState, id string, c *OpenIDConnectClientConfig, err error) :: c if err == nil
+//@   atcall OpenIDConnectClientConfig).ClientCanDoPKCEAuth sets ghostCanPKCE bool (c *OpenIDConnectClientConfig, ok bool, err error) :: ok && err == nil && c == ghostClient
+//@   atcall RuntimeState).idpOpenIDCValidCodeVerifier sets ghostPkceOK bool (s2 *RuntimeState, id string, verifier string, code keymasterdCodeToken, ok bool) :: ok && ghostCanPKCE && verifier != "" && id == ghostClientID && same(code, claimsCodeToken(ghostTokRaw))
+//@   atcall OpenIDConnectClientConfig).ValidClientSecret sets ghostSecretOK bool (c *OpenIDConnectClientConfig, secret string, ok bool) :: ok && secret != "" && c == ghostClient
+//@   atcall jwt.Builder).Claims requires (b jwt.Builder, i any) :: isType[openIDConnectIDToken](i) || isType[bearerAccessToken](i)  #C12.only-id-and-access-tokens @C12
+//@   atcall jwt.Builder).Claims requires (b jwt.Builder, i any) :: codeOK(state, r)                        #C12.code-proven @C12,C04
+//@   atcall jwt.Builder).Claims requires (b jwt.Builder, i any) :: isType[openIDConnectIDToken](i) ==> asType[openIDConnectIDToken](i).Issuer == state.idpGetIssuer() && asType[openIDConnectIDToken](i).Subject == claimsCodeToken(ghostTokRaw).Username && len(asType[openIDConnectIDToken](i).Audience) == 1 && asType[openIDConnectIDToken](i).Audience[0] == ghostClientID && asType[openIDConnectIDToken](i).Nonce == claimsCodeToken(ghostTokRaw).Nonce && asType[openIDConnectIDToken](i).Expiration == claimsCodeToken(ghostTokRaw).AuthExpiration  #C12.id-token-claims @C12
+//@   atcall jwt.Builder).Claims requires (b jwt.Builder, i any) :: isType[bearerAccessToken](i) ==> asType[bearerAccessToken](i).Issuer == state.idpGetIssuer() && asType[bearerAccessToken](i).Username == claimsCodeToken(ghostTokRaw).Username && asType[bearerAccessToken](i).Type == "bearer" && asType[bearerAccessToken](i).Expiration == claimsCodeToken(ghostTokRaw).AuthExpiration  #C12.access-token-claims @C12
+
+//@ func (*RuntimeState).idpOpenIDCAuthorizationHandler
+//@   atcall jwt.Builder).Claims requires (b jwt.Builder, i any) :: isType[keymasterdCodeToken](i) && ghostAuthed && asType[keymasterdCodeToken](i).Username == ghostAuthUser && asType[keymasterdCodeToken](i).Type == "token_endpoint" && asType[keymasterdCodeToken](i).RedirectURI == ghostApprovedRedirect && asType[keymasterdCodeToken](i).Subject == formGet(r.Form, "client_id")  #C12.code-binds-user-client-redirect @C12
+//@   atcall jwt.Builder).Claims requires (b jwt.Builder, i any) :: isType[keymasterdCodeToken](i) ==> asType[keymasterdCodeToken](i).AuthExpiration <= nowNanos()/1000000000 + 16*3600 && asType[keymasterdCodeToken](i).Expiration <= nowNanos()/1000000000 + 300  #C12.code-lifetimes @C12
+
+//@ func (*RuntimeState).idpOpenIDCUserinfoHandler
+//@   handler idpOpenIDCUserinfoPath
+//@   atcall jwt.ParseSigned sets ghostTokRaw string (s string, algs []jose.SignatureAlgorithm, tok *jwt.JSONWebToken, err error) :: s if err == nil
+//@   atcall encoding/json.Marshal requires (v any) :: isType[openidConnectUserInfo](v) ==> verifiedByKeymaster(state, ghostTokRaw) && claimsBearer(ghostTokRaw).Type == "bearer" && claimsBearer(ghostTokRaw).Issuer == state.idpGetIssuer() && claimsBearer(ghostTokRaw).Expiration >= nowNanos()/1000000000  #C12.userinfo-needs-access-token @C12,C04
+//@   atcall encoding/json.Marshal requires (v any) :: isType[openidConnectUserInfo](v) ==> len(claimsBearer(ghostTokRaw).Audience) == 0 || (exists i int :: 0 <= i && i < len(claimsBearer(ghostTokRaw).Audience) && claimsBearer(ghostTokRaw).Audience[i] == state.idpGetIssuer() + idpOpenIDCUserinfoPath)  #C12.userinfo-audience @C12
+//@   atcall encoding/json.Marshal requires (v any) :: isType[openidConnectUserInfo](v) ==> asType[openidConnectUserInfo](v).Subject == claimsBearer(ghostTokRaw).Username && asType[openidConnectUserInfo](v).Username == claimsBearer(ghostTokRaw).Username  #C12.userinfo-same-user @C12
+// package-level error values are created by errors.New at initialisation and never reassigned
+//@ axiom ErrorIDPClientNotFound != nil
